@@ -1,6 +1,7 @@
 package main
 
 import (
+	"runtime"
 	"context"
 	"fmt"
 	"sort"
@@ -22,6 +23,28 @@ func genCacheConc(g *genCtx) {
 	if !g.quick() {
 		rounds = int(1500 * g.scale)
 	}
+	renewOnly := false
+	for _, a := range flagExtra {
+		if a == "profile=C03" {
+			renewOnly = true
+		}
+	}
+	// renew: an overflowing Set lets the cache's own background sweep evict the oldest partition; the evicted keys are
+	// re-inserted the moment the eviction becomes visible (i.e. while that sweep may still be finishing); at rest they are
+	// the newest insertions and must all be present.  Large partitions, so that "still finishing" is a usable window.
+	nRenew := 2
+	if renewOnly {
+		nRenew, rounds = 4, 0
+	}
+	if !g.quick() {
+		nRenew *= 8
+	}
+	defer func() {
+		for t := 0; t < nRenew; t++ {
+			g.newCase("kind=stress")
+			g.op("renew cap=%d root=%d rounds=%d seed=%d", []int{40000, 20000, 90000}[t%3], []int{4, 2, 3}[t%3], 10, g.rng.intn(1<<30))
+		}
+	}()
 	for t := 0; t < rounds; t++ {
 		g.newCase("kind=stress")
 		r := g.rng
@@ -52,6 +75,8 @@ func execCacheConcCase(x *execCtx) {
 			obs = cacheFill(atoi(f["cap"]), atoi(f["g"]), uint64(atoi(f["seed"])))
 		case "mix":
 			obs = cacheMix(atoi(f["cap"]), atoi(f["g"]), atoi(f["ops"]), f["special"] == "1", atoi(f["sweepms"]), uint64(atoi(f["seed"])))
+		case "renew":
+			obs = cacheRenew(atoi(f["cap"]), atoi(f["root"]), atoi(f["rounds"]))
 		default:
 			obs = "bad-op"
 		}
@@ -144,7 +169,7 @@ func cacheFill(capacity, G int, seed uint64) string {
 	}
 	vb := viewBad(c, total)
 	left := sweeperLeft(cancel)
-	return fmt.Sprintf("panics=%d badget=0 viewbad=%d swbad=0 missing=%d sweeperleft=%d hang=0 %s", panics.Load(), vb, missing, left, raceObs())
+	return fmt.Sprintf("panics=%d badget=0 viewbad=%d swbad=0 missing=%d sweeperleft=%d renewmissing=0 hang=0 %s", panics.Load(), vb, missing, left, raceObs())
 }
 
 func cacheMix(capacity, G, ops int, special bool, sweepMs int, seed uint64) string {
@@ -277,5 +302,67 @@ func cacheMix(capacity, G, ops int, special bool, sweepMs int, seed uint64) stri
 		}(g)
 	}
 	wgA.Wait()
-	return fmt.Sprintf("panics=%d badget=%d viewbad=%d swbad=%d missing=0 sweeperleft=%d hang=%d %s", panics.Load(), badget.Load(), vb, swbad, left, hang, raceObs())
+	return fmt.Sprintf("panics=%d badget=%d viewbad=%d swbad=%d missing=0 sweeperleft=%d renewmissing=0 hang=%d %s", panics.Load(), badget.Load(), vb, swbad, left, hang, raceObs())
+}
+
+// cacheRenew: see genCacheConc.  One goroutine; the only concurrency is the cache's own background sweep.
+func cacheRenew(capacity, root, rounds int) string {
+	missing, vb, panics, left := 0, 0, 0, 0
+	// the size of one partition, measured on a cache of the same configuration that is left alone while it sweeps
+	pc := 0
+	func() {
+		defer func() { recover() }()
+		ctx, cancel := context.WithCancel(context.Background())
+		defer cancel()
+		c := storage.NewFifoMapCache[int, int](ctx, capacity, storage.WithSweepFrequency(time.Hour), storage.WithBalancedPartitions(float64(root), 2))
+		for k := 0; k <= c.Capacity(); k++ {
+			c.Set(k, k+1)
+		}
+		time.Sleep(5 * time.Millisecond)
+		c.Sweep()
+		for pc < c.Capacity() && !c.Contains(pc) {
+			pc++
+		}
+	}()
+	for round := 0; round < rounds; round++ {
+		func() {
+			defer func() {
+				if r := recover(); r != nil {
+					panics++
+				}
+			}()
+			ctx, cancel := context.WithCancel(context.Background())
+			c := storage.NewFifoMapCache[int, int](ctx, capacity, storage.WithSweepFrequency(time.Hour), storage.WithBalancedPartitions(float64(root), 2))
+			total := c.Capacity()
+			for k := 0; k < total; k++ {
+				c.Set(k, k+1)
+			}
+			c.Set(total, total+1) // one too many: the oldest partition goes, in the background
+			deadline := time.Now().Add(2 * time.Second)
+			for c.Contains(0) && time.Now().Before(deadline) {
+				runtime.Gosched()
+			}
+			// the keys of the evicted partition are 0..pc-1: re-insert them, oldest first
+			re := []int{}
+			for k := 0; k < pc && k < total; k++ {
+				c.Set(k, -k-1)
+				re = append(re, k)
+			}
+			time.Sleep(5 * time.Millisecond)
+			c.Sweep()
+			time.Sleep(2 * time.Millisecond)
+			// at rest the re-inserted keys are the newest insertions: as long as they are fewer than half the capacity none
+			// of them can have been evicted again
+			if len(re)*2 < total {
+				for _, k := range re {
+					if !c.Contains(k) || c.Get(k) != -k-1 {
+						missing++
+					}
+				}
+			}
+			vb += viewBad(c, total+1)
+			left += sweeperLeft(cancel)
+		}()
+	}
+	return fmt.Sprintf("panics=%d badget=0 viewbad=%d swbad=0 missing=0 sweeperleft=%d renewmissing=%d hang=0 pc=%d %s", panics, vb, left, missing, pc, raceObs())
 }
